@@ -58,6 +58,19 @@ def v3_process(key, packet):
         return canon_exc(e)
 
 
+def v3_process_seq(key, packets):
+    """the same protocol OBJECT processes the packets one after the other (what a connection does)"""
+    p = v3_proto(key)
+    out = []
+    for packet in packets:
+        try:
+            with memoryview(bytes(packet)) as mv:
+                out.append(hx(p._process_packet(mv)))
+        except Exception as e:  # noqa
+            out.append(canon_exc(e))
+    return out
+
+
 class _ReplyingTransport:
     """fake transport: answers the first write with a prepared packet (delivered through data_received)"""
 
